@@ -839,6 +839,29 @@ func c05Ring(p s2.Point, d float64, n int) []s2.Point {
 	return out
 }
 
+// c05CellProbes returns leaf cells of id: in its four corners, inside next to its four edge
+// midpoints and around its centre (by (i,j) arithmetic on the defining tables).
+func c05CellProbes(id s2.CellID) []s2.CellID {
+	l := emb.RawLevel(id)
+	if l == 30 {
+		return []s2.CellID{id}
+	}
+	f := int(uint64(id) >> 61)
+	i, j, _ := emb.IJ(id)
+	sz := 1 << uint(30-l)
+	i0, j0 := i*sz, j*sz
+	h := sz / 2
+	var out []s2.CellID
+	for _, ij := range [][2]int{
+		{i0, j0}, {i0 + sz - 1, j0}, {i0 + sz - 1, j0 + sz - 1}, {i0, j0 + sz - 1}, // corners
+		{i0 + h, j0}, {i0 + sz - 1, j0 + h}, {i0 + h, j0 + sz - 1}, {i0, j0 + h}, // edge midpoints
+		{i0 + h, j0 + h}, {i0 + h - 1, j0 + h - 1}, // centre
+	} {
+		out = append(out, emb.FromFaceIJ(f, 30, ij[0], ij[1]))
+	}
+	return out
+}
+
 // c05RectSeeds returns the corners of rect and points along and beside its edges.
 func c05RectSeeds(rect s2.Rect) []s2.Point {
 	var out []s2.Point
@@ -981,15 +1004,44 @@ func opC05Region(raw json.RawMessage, o *Out) {
 	for _, w := range witness {
 		leafSet[c05LeafOf(w)] = true
 	}
-	// cells of a few coverings contribute their corner and centre leaves
+	// candidate cells contribute the leaves in their corners, next to their edge midpoints and
+	// next to their centre: where a region that only grazes the cell would reach into it
+	addCell := func(id s2.CellID) {
+		for _, leaf := range c05CellProbes(id) {
+			leafSet[leaf] = true
+		}
+	}
 	for _, rel := range [][4]int{{-99, 0, 1, 8}, {-2, 2, 1, 8}} {
 		mn, mx, md, mc := c05RelCfg(nat, rel)
 		rc := &s2.RegionCoverer{MinLevel: mn, MaxLevel: mx, LevelMod: md, MaxCells: mc}
 		for _, id := range rc.Covering(region) {
-			lo, hi := s2.CellID(c05Lo(id)), s2.CellID(c05Hi(id))
-			leafSet[lo], leafSet[hi] = true, true
-			if c05Lsb(id) > 1 {
-				leafSet[s2.CellID(uint64(id)-1)], leafSet[s2.CellID(uint64(id)+1)] = true, true
+			addCell(id)
+		}
+	}
+	if c.Kind != "point" && c.Kind != "polyline" {
+		if nat <= 3 {
+			// a large region: every cell of the three coarsest levels (and level 3 around its boundary)
+			for f := 0; f < 6; f++ {
+				for l := 0; l <= 2; l++ {
+					for k := 0; k < 1<<uint(2*l); k++ {
+						addCell(emb.RawID(f, c05PathOf(l, k)))
+					}
+				}
+			}
+		}
+		// the cells of levels nat-1..nat+2 that meet a slightly enlarged bounding cap
+		cb := region.CapBound()
+		if !cb.IsEmpty() && !cb.IsFull() {
+			grown := s2.CapFromCenterAngle(cb.Center(), cb.Radius()*1.2+1e-9)
+			for l := c05Clamp(nat-1, 0, 30); l <= c05Clamp(nat+2, 0, 30); l++ {
+				rc := &s2.RegionCoverer{MinLevel: l, MaxLevel: l, LevelMod: 1, MaxCells: 1}
+				ids := rc.Covering(grown)
+				if len(ids) > 400 {
+					ids = ids[:400]
+				}
+				for _, id := range ids {
+					addCell(id)
+				}
 			}
 		}
 	}
